@@ -40,7 +40,8 @@ CLAIMS["C19"] = dict(
 )
 CLAIMS["C03"] = dict(
     category="proof",
-    text="The real Problem.__call__ (filter insertion test, removal loop cut at the invariant ALIGN/SUBSET/COVER/NOMIX, FIFO eviction) and the "
+    text="[+ bounded clause for a finite filter_size: an entry the newcomer does not dominate is evicted only when the filter is full] "
+         "The real Problem.__call__ (filter insertion test, removal loop cut at the invariant ALIGN/SUBSET/COVER/NOMIX, FIFO eviction) and the "
          "real Problem.best_eval are executed on filter lists of symbolic length with arbitrary float contents (NaN, +-inf, ties): the "
          "filter invariants are preserved by every call, and best_eval returns the entry prescribed by the documented six-tier rule "
          "(feasible first, least objective, ties by violation then recency; least merit otherwise), written from the statement.",
@@ -171,7 +172,8 @@ CLAIMS["C10"] = dict(
 CLAIMS["C11"] = dict(
     category="proof",
     text="Non-interference by frames: ownership obligations (no in-place write to a user-owned array or dict on any explored path of "
-         "BoundConstraints.__init__, NonlinearConstraints.__call__, the prologue of minimize; user functions receive fresh copies) and a "
+         "BoundConstraints.__init__, NonlinearConstraints.__call__, the prologue of minimize, _get_constraints on dictionaries - every "
+         "key-presence / type / container combination; user functions receive fresh copies) and a "
          "whole-package syntactic frame decided on every run (no global/nonlocal, no module/class state written in functions, no "
          "module-level container mutated, no caching decorator, no mutable default, no ambient nondeterminism).",
     design_ref="5 C11",
@@ -182,7 +184,9 @@ CLAIMS["C11"] = dict(
 CLAIMS["C12"] = dict(
     category="proof",
     text="Unbounded: every value recorded during the initial sampling is the value returned by the evaluation at that very interpolation "
-         "point, _eval returns the evaluated values, Problem.__call__ returns barrier-clipped finite values. Bounded (exact rational-"
+         "point, _eval returns the evaluated values, Problem.__call__ returns barrier-clipped finite values, and in minimize the point "
+         "handed to update_interpolation is x_best + step as they were when the recorded values were evaluated (provenance ghost, also "
+         "after an in-place second-order correction). Bounded (exact rational-"
          "function arithmetic on the real methods, n<=4): fresh models interpolate; update_interpolation updates every model (also when "
          "an update reports ill-conditioning), records values/point and preserves interpolation; shift_x_base and reset_models preserve it.",
     design_ref="5 C12",
@@ -234,8 +238,10 @@ CLAIMS["C16"] = dict(
          "violation, geometry steps do not decrease |q|, strict increase of the Cauchy geometry step when a feasible improving direction "
          "exists and the box fits in the trust region (found and fixed two genuine defects: _cauchy_geom signs, spider_geometry step sizes).",
     design_ref="5 C16",
-    note="The clause 'at least the decrease of the projected-gradient Cauchy step' is not applicable (its oracle is an algorithm) and not "
-         "checked; bounded detection is probabilistic.",
+    note="The clause 'at least the decrease of the projected-gradient Cauchy step' is a bounded clause (Cauchy step along the projected "
+         "gradient up to the first bound or the radius); the unmodified solver fails it below its absolute gradient threshold: recorded "
+         "known finding F1 (known_findings.json), printed as KNOWN-FINDING, every other input still checked. Bounded detection is "
+         "probabilistic.",
     technique="deductive selection contract + bounded run-time contracts",
 )
 CLAIMS["C17"] = dict(
